@@ -29,12 +29,13 @@ class ShapeClass:
         self.axis_names = axis_names
         self.memo = {}
         self.hazards = []
+        self.scalar = False  # path fact: the reduced argument is a 0-d value (isscalar(x) / ndim(x) == 0 holds)
         self.elem = set(facts.load("broadcasting")["elementwise_functions"]) - {"_doc"}
 
     def of(self, t, none=False):
         if t is None:
             return "S"
-        k = (id(t), none)
+        k = (id(t), none, self.scalar)
         if k in self.memo:
             return self.memo[k][1]
         self.memo[k] = (t, "T")
@@ -58,8 +59,62 @@ class ShapeClass:
     def is_axis(self, t):
         return t.op == "arg" and t.get("name") in self.axis_names
 
+    def is_scalar_test(self, c):
+        """(polarity) when the condition says that the reduced argument is a 0-d value: isscalar(x), ndim(x) == 0,
+        shape(x) == ()"""
+        from ..tutil import atom
+
+        a, pol = atom(c)
+        x0 = lambda v: v.op == "arg" and v.get("index") == 0
+        if a.op == "call" and len(a.args) == 1 and x0(a.args[0]):
+            r, _ = resolve_callee(self.ev, a)
+            if r is not None and is_numpy_callable(r) and base_name(r) == "isscalar":
+                return pol
+        if a.op == "cmp" and a.opname == "Eq":
+            for l, r_ in ((a.l, a.r), (a.r, a.l)):
+                nd = (l.op == "attr" and l.name == "ndim" and x0(l.obj)) or (l.op == "call" and len(l.args) == 1 and x0(l.args[0]) and (lambda rr: rr is not None and is_numpy_callable(rr) and base_name(rr) == "ndim")(resolve_callee(self.ev, l)[0]))
+                if nd and r_.op == "const" and type(r_.value) is int and r_.value == 0:
+                    return pol
+                sh = (l.op == "attr" and l.name == "shape" and x0(l.obj)) or (l.op == "call" and len(l.args) == 1 and x0(l.args[0]) and (lambda rr: rr is not None and is_numpy_callable(rr) and base_name(rr) == "shape")(resolve_callee(self.ev, l)[0]))
+                if sh and r_.op == "tuple" and not r_.elts:
+                    return pol
+        return None
+
+    def leaves(self, t, none=False):
+        """(class, term) of every control-flow leaf of a rule's result, each under the facts of its own path"""
+        if t is None:
+            return []
+        if t.op == "seq":
+            return self.leaves(t.value, none)
+        if t.op == "if":
+            c = t.cond
+            if t.then.op == "raise":
+                return self.leaves(t.other, none)
+            if t.other.op == "raise":
+                return self.leaves(t.then, none)
+            if c.op == "cmp" and c.opname in ("Is", "Eq", "IsNot", "NotEq") and c.r.op == "const" and c.r.value is None and self.is_axis(c.l):
+                none_then = c.opname in ("Is", "Eq")
+                return self.leaves(t.then, none or none_then) + self.leaves(t.other, none or (not none_then))
+            sp = self.is_scalar_test(c)
+            if sp is not None:
+                saved = self.scalar
+                out = []
+                for br, holds in ((t.then, sp), (t.other, not sp)):
+                    self.scalar = saved or holds
+                    try:
+                        out += self.leaves(br, none)
+                    finally:
+                        self.scalar = saved
+                return out
+            return self.leaves(t.then, none) + self.leaves(t.other, none)
+        if t.op == "raise":
+            return []
+        return [(self.of(t, none), t)]
+
     def _of(self, t, none):
         o = t.op
+        if self.scalar and ((o == "sym" and t.get("role") in ("ans", "g")) or (o == "arg" and t.get("index") == 0)):
+            return "S"
         if o == "sym":
             role = t.get("role")
             if role == "ans":
@@ -172,12 +227,12 @@ class ShapeClass:
         return "T"
 
 
-def reductions(ctx, world):
+def reductions(ctx, world, modes=("vjp", "jvp")):
     ctx.describe("A3.reduce", "in the VJP/JVP rules of axis reductions (sum, mean, prod, var, std, max/min/amax/amin, linalg.norm) no elementwise operation combines a definitely full-shaped operand with a definitely reduced-shaped one; reduced values reach full shape only through expand_dims / repeat_to_match_shape / keepdims=True (or are scalars under `axis is None`)")
     fx = set(facts.load("axis_params")["names"])
     n = 0
     for e in world.table.entries:
-        if e.spec != "maker" or not world.in_numpy_scope(e) or not is_numpy_callable(e.prim):
+        if e.spec != "maker" or e.mode not in modes or not world.in_numpy_scope(e) or not is_numpy_callable(e.prim):
             continue
         if base_name(e.prim) not in REDUCTIONS or e.argnum != 0:
             continue
@@ -189,6 +244,16 @@ def reductions(ctx, world):
         S = ShapeClass(world, e.mode, fx)
         S.of(ir.result)
         inst = construct_of(e)
+        # the class of what the rule returns, path by path: a tangent lives in the RESULT's space (reduced), a
+        # cotangent in the ARGUMENT's (full)
+        wrong = "F" if e.mode == "jvp" else "R"
+        bad_leaf = next((lt for cl, lt in S.leaves(ir.result) if cl == wrong), None)
+        if bad_leaf is None:
+            ctx.ob("A3.reduce", inst + ":result", True, e.loc)
+        else:
+            txt_ = norm_text(bad_leaf.node) if bad_leaf.node is not None else str(bad_leaf)
+            what = "a tangent in the shape of the reduced ARGUMENT (the reduction's result has fewer axes)" if e.mode == "jvp" else "a cotangent in the shape of the reduction's RESULT (the argument has more axes)"
+            ctx.fail("A3.reduce", inst + ":result", f"{e.mode}:{e.prim_id}|result-class", e.loc, f"on some path the rule returns `{txt_[:80]}`: {what}", "the reduction of an array with ndim >= 1 (also one with a single element) along an axis without keepdims")
         if not S.hazards:
             ctx.ob("A3.reduce", inst, True, e.loc)
             continue
@@ -203,4 +268,4 @@ def reductions(ctx, world):
                 f"`{txt[:90]}` combines a full-shaped array with a reduced-shaped one (the result / cotangent of the reduction) that was not expanded along the reduced axis",
                 "the reduction called with an integer axis that is not the last one on an array whose dimensions coincide (e.g. a square matrix): NumPy right-aligns the reduced array and pairs the wrong entries silently; other shapes raise",
             )
-    ctx.floor("A3.reduce reduction rules", n, 14)
+    ctx.floor(f"A3.reduce reduction rules ({'+'.join(modes)})", n, (8 if "vjp" in modes else 0) + (6 if "jvp" in modes else 0))
